@@ -257,8 +257,9 @@ Definition c_ctx_from_filename (hist : bool) (fname0 : bytes) : res kctx :=
     do c <- gslice_to (len fname - len SUFFIX_SYM) fname; Ok (PAR_PURPOSE_PoisonRecordSymmetricKey, [], c)
   else c_ctx_from_base_name (base fname).
 
-(** * 3. keystore v2: DescribeKeyRing (as written: the storage and HMAC branches report
-    [components[clientPrefixIndex]], i.e. the literal "client", as the client id) *)
+(** * 3. keystore v2: DescribeKeyRing (after fix 459ceea every client branch reports
+    [components[clientIDIndex]]; the pinned code reported [components[clientPrefixIndex]], the literal
+    "client", for the storage and HMAC branches) *)
 Definition c_describe_key_ring (path : bytes) : res desc :=
   if bytes_eqb path PAR_V2_poisonKeyPath then Ok (path, [], PAR_V2_PURPOSE_PoisonRecord)
   else if bytes_eqb path PAR_V2_auditLogSymmetricKeyPath then Ok (path, [], PAR_V2_PURPOSE_AuditLog)
@@ -269,8 +270,8 @@ Definition c_describe_key_ring (path : bytes) : res desc :=
       do pre <- lindex PAR_V2_clientPrefixIndex comps;
       do pur <- lindex PAR_V2_purposeIndex comps;
       do cid <- lindex PAR_V2_clientIDIndex comps;
-      if bytes_eqb pre PAR_V2_clientPrefix && bytes_eqb pur PAR_V2_storageSuffix then Ok (path, pre, PAR_V2_PURPOSE_StorageClient)
-      else if bytes_eqb pre PAR_V2_clientPrefix && bytes_eqb pur PAR_V2_hmacSymmetricSuffix then Ok (path, pre, PAR_V2_PURPOSE_SearchHMAC)
+      if bytes_eqb pre PAR_V2_clientPrefix && bytes_eqb pur PAR_V2_storageSuffix then Ok (path, cid, PAR_V2_PURPOSE_StorageClient)
+      else if bytes_eqb pre PAR_V2_clientPrefix && bytes_eqb pur PAR_V2_hmacSymmetricSuffix then Ok (path, cid, PAR_V2_PURPOSE_SearchHMAC)
       else if bytes_eqb pre PAR_V2_clientPrefix && bytes_eqb pur PAR_V2_storageSymmetricSuffix then Ok (path, cid, PAR_V2_PURPOSE_StorageClientSym)
       else Err E_UNRECOGNIZED
     else Err E_UNRECOGNIZED.
